@@ -21,7 +21,7 @@ from lx.lifted import LiftedScript, dump_runner, set_eq
 from lx.tree import Names
 
 PID = "C13"
-BOUNDS = ("11 hand-written statement templates over schema-qualified tables (s.t1, s.t2, s.w) + a seeded share of the corpus under an "
+BOUNDS = ("17 hand-written statement templates over schema-qualified tables (s.t1, s.t2, s.w) + a seeded share of the corpus under an "
           "unrelated provider; metadata column names free (2 characters over the identifier alphabet; thorough: 1-3), 1-3 columns "
           "per table, a free known/unknown bit per table; provider = DummyMetaDataProvider (dict-backed)")
 STUBS = ["sqllineage.runner.split / SqlFluffLineageAnalyzer._list_specific_statement_segment (parser boundary)"]
@@ -232,19 +232,45 @@ def b_insert_positions(self, n):
 
 
 def b_insert_explicit_list(self, n):
+    # the listed names are free as well: a permutation of the known columns, a partial overlap, no overlap are all
+    # just solver cases
+    kx, ky = n["zqkx"], n["zqky"]
     k1, k2 = K("k1", self.length), K("k2", self.length)
     distinct(k1, k2)
-    exp = [(C(T1, "ca"), C(W, "cx")), (C(T1, "cb"), C(W, "cy"))]
+    distinct(kx, ky)
+    exp = [(C(T1, "ca"), C(W, low(kx))), (C(T1, "cb"), C(W, low(ky)))]
     meta = {W: [k1, k2]} if fork_bool("known_w") else {"s.other": [k1]}
     return meta, exp, exp
 
 
-def b_explicit_classify(self, names, meta, got, exp):
-    has = lambda pairs, a, b: any(bool(x == a) and bool(y == b) for x, y in pairs)
-    # recorded finding: the target's metadata is known -> the explicit column list is ignored, the select item names are used
-    if W in meta and has(got.pairs, C(T1, "ca"), C(W, "ca")) and has(got.pairs, C(T1, "cb"), C(W, "cb")):
-        return "C13-explicit-insert-column-list-overridden-by-target-metadata"
-    return None
+def b_insert_explicit_shorter(self, n):
+    # fewer listed columns than the target is known to have
+    kx = n["zqkx"]
+    k1, k2 = K("k1", self.length), K("k2", self.length)
+    distinct(k1, k2)
+    exp = [(C(T1, "ca"), C(W, low(kx)))]
+    meta = {W: [k1, k2]} if fork_bool("known_w") else {"s.other": [k1]}
+    return meta, exp, exp
+
+
+def b_insert_explicit_longer(self, n):
+    # more listed columns than the target is known to have
+    kx, ky = n["zqkx"], n["zqky"]
+    k1 = K("k1", self.length)
+    distinct(kx, ky)
+    exp = [(C(T1, "ca"), C(W, low(kx))), (C(T1, "cb"), C(W, low(ky)))]
+    meta = {W: [k1]} if fork_bool("known_w") else {"s.other": [k1]}
+    return meta, exp, exp
+
+
+def b_insert_explicit_union(self, n):
+    kx, ky = n["zqkx"], n["zqky"]
+    k1, k2 = K("k1", self.length), K("k2", self.length)
+    distinct(k1, k2)
+    distinct(kx, ky)
+    exp = [(C(T1, "ca"), C(W, low(kx))), (C(T1, "cb"), C(W, low(ky))), (C(T2, "cc"), C(W, low(kx))), (C(T2, "cd"), C(W, low(ky)))]
+    meta = {W: [k1, k2]} if fork_bool("known_w") else {"s.other": [k1]}
+    return meta, exp, exp
 
 
 def b_unknown_everything(self, n):
@@ -276,7 +302,11 @@ TEMPLATES = {
     "unqualified_free_tables": ("INSERT INTO s.w SELECT zqkx FROM zqs1.zqt1 AS a JOIN zqs2.zqt2 AS b ON a.id = b.id", b_unqualified_free_tables, None),
     "unqualified_comma_join": ("INSERT INTO s.w SELECT zqkx FROM s.t1, s.t2", b_unqualified, None),
     "insert_positions": ("INSERT INTO s.w SELECT ca, cb FROM s.t1", b_insert_positions, None),
-    "insert_explicit_list": ("INSERT INTO s.w (cx, cy) SELECT ca, cb FROM s.t1", b_insert_explicit_list, b_explicit_classify),
+    "insert_explicit_list": ("INSERT INTO s.w (zqkx, zqky) SELECT ca, cb FROM s.t1", b_insert_explicit_list, None),
+    "insert_explicit_shorter": ("INSERT INTO s.w (zqkx) SELECT ca FROM s.t1", b_insert_explicit_shorter, None),
+    "insert_explicit_longer": ("INSERT INTO s.w (zqkx, zqky) SELECT ca, cb FROM s.t1", b_insert_explicit_longer, None),
+    "insert_explicit_union": ("INSERT INTO s.w (zqkx, zqky) SELECT ca, cb FROM s.t1 UNION ALL SELECT cc, cd FROM s.t2", b_insert_explicit_union, None),
+    "insert_explicit_cte": ("INSERT INTO s.w (zqkx, zqky) WITH c AS (SELECT ca, cb FROM s.t1) SELECT ca, cb FROM c", b_insert_explicit_list, None),
     "unknown_tables": ("INSERT INTO s.w SELECT a.ca, b.cb, cc FROM s.t1 AS a JOIN s.t2 AS b ON a.id = b.id", b_unknown_everything, None),
     "insert_positions_union": ("INSERT INTO s.w SELECT ca FROM s.t1 UNION ALL SELECT cb FROM s.t2", b_insert_positions_union, None),
     "ctas_target_metadata": ("CREATE TABLE s.w AS SELECT ca FROM s.t1", b_ctas_ignores_target_metadata, None),
